@@ -5,6 +5,7 @@ package main
 // model (Model.WsRead) vs the conformant receiver of Spec.Ws.
 
 import (
+	"time"
 	"bytes"
 	"io"
 	"fmt"
@@ -37,6 +38,8 @@ func (o wsReadOut) String() string {
 	return fmt.Sprintf("msgs=%s err=%s partial=%d replies=%s sticky=%s", m, o.err, o.partial, o.replies, b01(o.sticky))
 }
 
+var wsImplReadN int
+
 // wsImplRead: ReadMessage until it fails, then twice more (sticky), on the real code.
 func wsImplRead(c *h.Ctx, isServer, deflate bool, limit int64, rbuf int, stream []byte, input string) (out wsReadOut) {
 	fake := newWsFake(stream)
@@ -47,6 +50,14 @@ func wsImplRead(c *h.Ctx, isServer, deflate bool, limit int64, rbuf int, stream 
 	}()
 	conn := ws.VerifNewConn(fake, isServer, rbuf, 256, deflate)
 	conn.SetReadLimit(limit)
+	// what the application did to the WRITING side before (a write deadline that has since passed, one far in the
+	// future, none) is not the reader's business: its replies — pongs, the close frames — go out under their own deadline
+	switch wsImplReadN++; wsImplReadN % 4 {
+	case 1:
+		conn.SetWriteDeadline(time.Now().Add(-time.Hour))
+	case 2:
+		conn.SetWriteDeadline(time.Now().Add(time.Hour))
+	}
 	var first error
 	for i := 0; i < 100000; i++ {
 		t, p, err := conn.ReadMessage()
